@@ -27,8 +27,9 @@ pub fn answer(req: &str) -> String {
 }
 
 fn answer_once(req: &str) -> String {
-    let parts: Vec<&str> = req.splitn(3, " | ").collect();
-    if parts.len() != 3 {
+    // an optional fourth field (`expect=..`) is for the model driver only
+    let parts: Vec<&str> = req.splitn(4, " | ").collect();
+    if parts.len() != 3 && parts.len() != 4 {
         return "BADREQ".into();
     }
     let head: Vec<&str> = parts[0].split_whitespace().collect();
